@@ -7,7 +7,7 @@ r = json.load(open(res))
 d = os.path.join("/verif/seeded", sid)
 os.makedirs(d, exist_ok=True)
 shutil.copy(diff, os.path.join(d, "patch.diff"))
-src = re.sub(r"/tmp/mut[23456]?/[A-Z]\d*", "/repo", open(demo).read())
+src = re.sub(r"/tmp/mut[234567]?/[A-Z]\d*", "/repo", open(demo).read())
 open(os.path.join(d, "demo.py"), "w").write(src)
 notes = open(note).read() if os.path.exists(note) else ""
 caught = {c: (v["rc"] == 1) for c, v in r.get("checks", {}).items()}
